@@ -49,6 +49,10 @@ WAIT = 20.0
 POOL_STALL = 5.0      # real pool: an accepted task that no worker picks up within this is reported as stalled
 
 
+class Unusable(Exception):
+    """the bench cannot be wired to this implementation at all"""
+
+
 class Stalled(Exception):
     """the implementation made no progress within a generous bound: reported as an observation, judged by the oracle"""
 OUTCOMES = ['ok', 'unconvertible', 'send_exc', 'send_base', 'dies_exc', 'dies_base']
@@ -67,9 +71,26 @@ class ObsFuture(Future):
     """a Future that tells the bench when somebody (only flush does) starts waiting for its result"""
     bench = None
 
+    def _maybe_park(self, b):
+        """`park_flush` cases: the flush thread stops at the first future it looks at (done() or result()), wherever
+        it is in its bookkeeping, until the schedule says `flushGo`"""
+        if b.park_flush and not b.flush_parked_once:
+            b.flush_parked_once = True
+            b.flush_parked = True
+            b.flush_event.release()
+            b.flush_go.wait(WAIT)
+            b.flush_parked = False
+
+    def done(self):
+        b = self.bench
+        if b is not None and threading.current_thread() is b.flush_thread:
+            self._maybe_park(b)
+        return super().done()
+
     def result(self, timeout=None):
         b = self.bench
         if b is not None and threading.current_thread() is b.flush_thread:
+            self._maybe_park(b)
             b.flush_at = self
             b.flush_event.release()
         return super().result(timeout)
@@ -206,8 +227,17 @@ class Bomb:
 
 
 class Bench:
-    def __init__(self, mode, outcomes):
+    """Judged through public behaviour: the futures `submit_task` returns (through the pool we hand to the handler),
+    the sends seen by the fake channel, what `push_snapshot` / `flush` return or raise.  Private attributes that make
+    the bench sharper (`_pool`, `_pending`, `_open`) are probed; without them the bench goes on and says `degraded`."""
+
+    def __init__(self, mode, outcomes, park_flush=False):
         self.mode = mode
+        self.degraded = []
+        self.park_flush = park_flush
+        self.flush_parked_once = False
+        self.flush_parked = False
+        self.flush_go = threading.Event()
         self.outcomes = list(outcomes)
         self.lock = threading.Lock()
         self.sends = []
@@ -221,11 +251,18 @@ class Bench:
         self.flush_runs = 0
         self.gate_callbacks = mode == 'det'
         self.pool = None
+        if not hasattr(getattr(self.handler, '_pool', None), 'submit'):
+            raise Unusable('TaskHandler has no _pool to put the step pool in / to observe')
         if mode == 'det':
             self.handler._pool.shutdown(wait=False)
             self.pool = StepPool(self)
             self.handler._pool = self.pool
-        self.handler._pending = GateDict(self)
+        self.has_pending = isinstance(getattr(self.handler, '_pending', None), dict)
+        if self.has_pending:
+            self.handler._pending = GateDict(self)
+        else:
+            self.degraded.append('no _pending dict: pending map not observed, done-callbacks not gated')
+            self.gate_callbacks = False
         self.push = PushService(Grpc(Channel(self)), self.handler)
         self.snaps = []
         self.by_id = {}
@@ -361,6 +398,8 @@ class Bench:
         if t is None:
             return
         while True:
+            if self.flush_parked:
+                return
             if not first and (not t.is_alive() or self.flush_outcome != 'waiting'):
                 if self.flush_outcome != 'waiting':
                     t.join(WAIT)
@@ -380,6 +419,20 @@ class Bench:
         except Exception:
             return 0
 
+    def do_flush_go(self):
+        if not self.flush_parked:
+            return
+        self.flush_go.set()
+        t0 = time.time()
+        while self.flush_parked and time.time() - t0 < WAIT:
+            time.sleep(0.0005)
+        self.settle_flush(first=True)
+
+    def pending_keys(self):
+        if not self.has_pending:
+            return None
+        return sorted(dict.keys(self.handler._pending))
+
     def fut_state(self, f):
         return 'done' if f.done() else 'running' if f.running() else 'queued'
 
@@ -393,19 +446,22 @@ class Bench:
             k = self.accepted[n] if n < len(self.accepted) else None
             job = self.pool.jobs[n] if self.pool else None
             tasks.append({'id': n + 1, 'fut': self.fut_state(f),
-                          'cb': bool(job.cb_done) if job else None,
+                          'cb': bool(job.cb_done) if (job and self.has_pending) else None,
                           'runs': len(bodies.get(k, [])), 'sends': len([1 for kk, _ in sends if kk == k]),
                           'on_caller': any(t == self.caller for t in bodies.get(k, [])) or
                           any(t == self.caller for kk, t in sends if kk == k)})
         escaped = [[j.idx, j.escaped] for j in self.pool.jobs if j.escaped] if self.pool else []
         return {'escaped': escaped, 'dead_workers': self.dead_workers(), 'caller_sends': sorted(kk for kk, t in sends if t == self.caller and kk is not None),
-                'open': bool(self.handler._open), 'pending': sorted(dict.keys(self.handler._pending)),
+                'degraded': list(self.degraded),
+                'open': (bool(self.handler._open) if hasattr(self.handler, '_open') else None),
+                'pending': self.pending_keys(),
                 'flush': self.flush_outcome or 'idle', 'refused': len(self.refused),
                 'refusals': [[k, name, exc] for k, name, exc in self.refused], 'tasks': tasks,
                 'stray_sends': len([1 for kk, _ in sends if kk is None])}
 
     def close(self):
         self.gate_callbacks = False
+        self.flush_go.set()
         for k in self.send_go:
             self.send_go[k].set()
         if self.pool:
@@ -431,7 +487,7 @@ class Bench:
 
 
 def run_det(case):
-    b = Bench('det', case['outcomes'])
+    b = Bench('det', case['outcomes'], park_flush=bool(case.get('park_flush')))
     trace = []
     try:
         for st in case['sched']:
@@ -446,6 +502,8 @@ def run_det(case):
                 b.do_callback(st['id'])
             elif s == 'flushBegin':
                 b.do_flush_begin()
+            elif s == 'flushGo':
+                b.do_flush_go()
             else:
                 raise core.Infra('unknown step ' + s)
             trace.append(b.observe())
@@ -521,7 +579,8 @@ def run_pool(case):
                     b.flush_thread.start()
                     # flush has begun once it closed the handler or asked for the pending values (or ended)
                     t0 = time.time()
-                    while b.handler._open and not b.flush_snapshot_asked.is_set() and b.flush_thread.is_alive() \
+                    while getattr(b.handler, '_open', False) and not b.flush_snapshot_asked.is_set() \
+                            and b.flush_thread.is_alive() \
                             and time.time() - t0 < 2:
                         time.sleep(0.001)
             # start / callback steps are the pool's own business in this mode
@@ -532,7 +591,7 @@ def run_pool(case):
                 raise Stalled('flush did not return within %s s although every task is finished' % WAIT)
         # let the done-callbacks (run by the pool threads after waiters are woken) finish
         t0 = time.time()
-        while all_released and dict.keys(b.handler._pending) and time.time() - t0 < 5:
+        while all_released and b.pending_keys() and time.time() - t0 < 5:
             time.sleep(0.002)
         if any(b.outcomes[k] in ('send_base', 'dies_base') for k in b.accepted):
             time.sleep(0.05)         # a worker killed by an escaping exception needs a moment to be seen dead
@@ -545,7 +604,14 @@ def run_pool(case):
 
 
 def run_impl(case):
-    return run_pool(case) if case['mode'] == 'pool' else run_det(case)
+    try:
+        return run_pool(case) if case['mode'] == 'pool' else run_det(case)
+    except core.Infra:
+        raise
+    except BaseException as e:  # noqa: B902 — the bench tripped over the implementation: data, not a crash
+        import traceback
+        where = ' <- '.join(f'{f.name}:{f.lineno}' for f in reversed(traceback.extract_tb(e.__traceback__)[-3:]))
+        return {'bench_error': f'{type(e).__name__}: {e} @ {where}', 'trace': [], 'final': None, 'complete': False}
 
 
 # --------------------------------------------------------------------------------------- generation
@@ -654,11 +720,38 @@ def gen_pool(rng, tier, base_first=False):
     return {'mode': 'pool', 'outcomes': outcomes, 'sched': sched + fin}
 
 
+def gen_park(rng):
+    """tasks complete (and their callbacks run) exactly while flush is taking stock: flush is parked at the first
+    future it looks at — inside whatever bookkeeping it does — a random non-empty subset of the running tasks ends
+    meanwhile, then flush goes on.  Judged by the oracle only (flush returns normally, everything drained)."""
+    n = rng.randint(2, 4)
+    outcomes = [rng.choice(['ok', 'ok', 'send_exc', 'send_base']) for _ in range(n)]
+    sched = [{'s': 'push'} for _ in range(n)]
+    order = list(range(1, n + 1))
+    rng.shuffle(order)
+    started = order[:rng.randint(max(1, n - 1), n)]
+    sched += [{'s': 'start', 'id': j, 'w': 0} for j in started]
+    sched.append({'s': 'flushBegin'})
+    during = [j for j in started if rng.random() < 0.6] or [started[-1]]
+    rng.shuffle(during)
+    for j in during:
+        sched += [{'s': 'finish', 'id': j}, {'s': 'callback', 'id': j}]
+    sched.append({'s': 'flushGo'})
+    rest = [j for j in order if j not in during]
+    for j in rest:
+        if j not in started:
+            sched.append({'s': 'start', 'id': j, 'w': 1})
+        sched += [{'s': 'finish', 'id': j}, {'s': 'callback', 'id': j}]
+    return {'mode': 'det', 'park_flush': True, 'outcomes': outcomes, 'sched': sched}
+
+
 def gen(rng, tier):
     k = 0
     while True:
         k += 1
-        if k % 12 == 0:
+        if k % 10 == 3:
+            yield gen_park(rng)
+        elif k % 12 == 0:
             yield gen_pool(rng, tier, base_first=(k % 24 == 0))
         else:
             yield gen_det(rng, tier)
@@ -682,6 +775,9 @@ def corpus():
         # flush passes a finished task whose callback has not run yet; push after close
         {'mode': 'det', 'outcomes': ['ok', 'send_base', 'unconvertible', 'ok'],
          'sched': [P, P, st(2), st(1), P, fi(1), F, P, fi(2), st(3), cb(2), fi(3), cb(1), cb(3)]},
+        # task 2 completes and is forgotten exactly while flush looks at task 1
+        {'mode': 'det', 'park_flush': True, 'outcomes': ['ok', 'ok'],
+         'sched': [P, P, st(1), st(2), F, fi(2), cb(2), {'s': 'flushGo'}, fi(1), cb(1)]},
         # 20 failing tasks (the suite's test, with the schedule pinned)
         {'mode': 'det', 'outcomes': ['dies_exc', 'dies_base', 'send_exc'],
          'sched': [P, P, P, st(1), st(2), st(3), fi(3), fi(2), fi(1), F, cb(1), cb(2), cb(3)]},
@@ -751,6 +847,8 @@ def judge_state(case, o, where, pushes_after_close, outs):
 def oracle(case, obs):
     outs = accepted_outcomes(case, None)
     v = []
+    if obs.get('bench_error'):
+        return []
     if obs.get('stalled'):
         v.append('no progress: ' + obs['stalled'])
     if case['mode'] == 'pool':
@@ -831,6 +929,8 @@ def pool_model_sched(case):
 
 
 def model_request(case, obs):
+    if case.get('park_flush'):
+        return None      # flush parked in the middle of its own bookkeeping: no such region in the model
     # outcomes by job id = outcomes of the accepted pushes, in order
     outs = accepted_outcomes(case, None)
     sched = pool_model_sched({'outcomes': outs, 'sched': case['sched']}) if case['mode'] == 'pool' else case['sched']
@@ -840,7 +940,7 @@ def model_request(case, obs):
 def cmp_state(m, o, where, with_cb=True):
     d = []
     for key in ('open', 'pending', 'flush', 'refused'):
-        if m[key] != o[key]:
+        if o[key] is not None and m[key] != o[key]:
             d.append(f'{where}: {key} model {m[key]} vs implementation {o[key]}')
     if m['caller_runs'] != sum(1 for t in o['tasks'] if t['on_caller']) + len(o['caller_sends']):
         d.append(f'{where}: work on the calling thread: model {m["caller_runs"]} vs implementation '
@@ -849,7 +949,7 @@ def cmp_state(m, o, where, with_cb=True):
         d.append(f'{where}: accepted tasks model {len(m["tasks"])} vs implementation {len(o["tasks"])}')
     for a, b in zip(m['tasks'], o['tasks']):
         for key in ('fut', 'runs', 'sends') + (('cb',) if with_cb else ()):
-            if a[key] != b[key]:
+            if b[key] is not None and a[key] != b[key]:
                 d.append(f'{where}: task {a["id"]} {key} model {a[key]} vs implementation {b[key]}')
     return d
 
@@ -857,6 +957,8 @@ def cmp_state(m, o, where, with_cb=True):
 def compare(case, obs, resp):
     if 'error' in resp:
         return ['model error: ' + resp['error']]
+    if obs.get('bench_error'):
+        return ['the bench could not run the case on this implementation: ' + obs['bench_error']]
     if obs.get('stalled'):
         return ['implementation stalled: ' + obs['stalled']]
     if case['mode'] == 'pool':
@@ -893,7 +995,10 @@ def _features(case):
 
 def label(case, obs):
     f = _features(case)
-    return case['mode'] + '/' + ('+'.join(sorted(f)) if f else 'plain')
+    deg = 'degraded/' if (obs.get('bench_error') or any(o.get('degraded') for o in obs.get('trace') or [])
+                          or (obs.get('final') or {}).get('degraded')) else ''
+    return deg + case['mode'] + ('-flush-parked' if case.get('park_flush') else '') + '/' + \
+        ('+'.join(sorted(f)) if f else 'plain')
 
 
 def nontrivial(case, obs):
@@ -901,6 +1006,8 @@ def nontrivial(case, obs):
 
 
 def shrink(case):
+    if case.get('park_flush'):
+        return
     sc = case['sched']
     for i in range(len(sc) - 1, -1, -1):
         if sc[i]['s'] != 'push':
